@@ -16,7 +16,7 @@ import (
 func init() {
 	register(&Pack{ID: "C01", Run: runC01, Meta: core.Meta{
 		Level:       "other",
-		Explanation: "What decides which bytes a lens touches is one address expression and one pair of numbers, all visible in the code. addr-term: every dereference of a pointer converted from unsafe.Pointer in package optics has the normalised address term uintptr(unsafe.Pointer(BASE)) + L.Type.StructField.Offset + L.Type.RootOffs (sum flattened and sorted) with L the method receiver and BASE the container pointer (the *S parameter, or the result of the successful s.(*S) assertion), typed *A for the lens' focus type parameter; the four methods agree (sibling cross-check); Put/Putt perform exactly one store, of parameter a, through that pointer and return the container argument unchanged, Get/Gett store nothing; unsafe-census: every unsafe.Pointer conversion in every loaded package sits in one of those address terms; offs-writers/offs-term: the only writers of hseq.Type.RootOffs / StructField are the composite literals of the unfolding function hseq.New calls with offset 0, where RootOffs is the offset parameter, StructField is cat.Field(i) and the recursion passes offset + cat.Field(i).Offset for the same i; pairing: ForProductN/ForSpectrumN/NewN/FMapN are positionally consistent on type arguments and constant indices. Paper: RootOffs+Offset is the sum of reflect offsets along a chain of value-embedded structs = the compiler's byte offset; a typed store through *A writes sizeof(A) bytes there; A = field type by the guard (C02) => GetPut/PutGet/PutPut and neighbours untouched for every layout. The reflect layout contract and field values are not decided. Thorough tier repeats the rules under GOARCH=386 and arm64. Selection by names keeps the requested order and never falls back to the declaration order (names-order, shared with C03).",
+		Explanation: "What decides which bytes a lens touches is one address expression and one pair of numbers, all visible in the code. addr-term: every dereference of a pointer converted from unsafe.Pointer in package optics has the normalised address term uintptr(unsafe.Pointer(BASE)) + L.Type.StructField.Offset + L.Type.RootOffs (sum flattened and sorted) with L the method receiver and BASE the container pointer (the *S parameter, or the result of the successful s.(*S) assertion), typed *A for the lens' focus type parameter; the four methods agree (sibling cross-check); Put/Putt perform exactly one store, of parameter a, through that pointer and return the container argument unchanged, Get/Gett store nothing; unsafe-census: every unsafe.Pointer conversion in every loaded package sits in one of those address terms; offs-writers/offs-term: the only writers of hseq.Type.RootOffs / StructField are the composite literals of the unfolding function hseq.New calls with offset 0, where RootOffs is the offset parameter, StructField is cat.Field(i) and the recursion passes offset + cat.Field(i).Offset for the same i; pairing: ForProductN/ForSpectrumN/NewN/FMapN are positionally consistent on type arguments and constant indices. Paper: RootOffs+Offset is the sum of reflect offsets along a chain of value-embedded structs = the compiler's byte offset; a typed store through *A writes sizeof(A) bytes there; A = field type by the guard (C02) => GetPut/PutGet/PutPut and neighbours untouched for every layout. The reflect layout contract and field values are not decided. Thorough tier repeats the rules under GOARCH=386 and arm64. Selection by names keeps the requested order and never falls back to the declaration order (names-order, shared with C03). unfold-pure: what hseq.New reaches touches package state only read-only, as a lock, or as a memo obeying the memo discipline (one-argument function, entry written under its unmodified parameter holding exactly the returned value) - shared with C02 and C03.",
 		RuleText:    "one obligation per (rule, method / constructor / literal / call site)",
 		Assumptions: []string{"hseq.Type values reaching optics were produced by hseq (clients can forge the public struct; all writers inside the repository are enumerated)", "reflect reports true field offsets"},
 		TrustedBase: []string{"go/types", "go/ssa", "term normaliser T", "reflect's layout data"},
